@@ -20,6 +20,7 @@ type aType struct {
 	Opt    bool     `json:"o,omitempty"`
 	Fields []aField `json:"f,omitempty"` // inline: a nested (in-place) type, compiled to the type "<Outer>.<field>"
 	Nested bool     `json:"nested,omitempty"` // ref only, set by the oracle's expandNested: Ref is the full name of a nested type
+	Bare   bool     `json:"bare,omitempty"`   // ref only, type of a query parameter: written `?name=Type` without braces
 }
 type aField struct {
 	Name string `json:"n"`
@@ -53,12 +54,14 @@ type aEndpoint struct {
 	Params []aParam `json:"ps,omitempty"`
 	Rets   []aRet   `json:"rs,omitempty"`
 	Plain  bool     `json:"plain,omitempty"` // RPC-style endpoint (name = Path), no REST parts
+	Wrap   []string `json:"w,omitempty"`     // Wrap[i]: the statement Rets[i] is nested in ("" / absent: top level): if else foreach until while oneof group deep
 }
 type aApp struct {
 	Name      string      `json:"name"`
 	Version   string      `json:"version"`
 	Types     []aTypeDef  `json:"types"`
 	Endpoints []aEndpoint `json:"eps"`
+	Desc      string      `json:"desc,omitempty"`   // @description
 	Server    string      `json:"server,omitempty"` // @env.1.url
 	Style     string      `json:"style"`            // "sysl": hand-written style; "imported": header names via name="..", numeric return codes
 }
@@ -374,6 +377,108 @@ func (g *gen) appKinds(name string, style string) aApp {
 	return a
 }
 
+// params stream (deepen round 3, second pass): an application of the main stream whose path, query and header parameters
+// are of DECLARED types - alias of a primitive, alias of a sequence, enum, !type, !table - optional or not, the query
+// parameters with braces (`?status={Status}`) and, rarely, without (`?status=Status`)
+func (g *gen) appParams(name string, style string) aApp {
+	a := g.app(name, style, false)
+	decl := []string{}
+	for _, td := range a.Types {
+		if td.Kind == "tuple" {
+			decl = append(decl, td.Name)
+			break
+		}
+	}
+	a.Types = append(a.Types, aTypeDef{Name: "PId", Kind: "alias", Alias: &aType{Kind: "prim", Prim: g.pick([]string{"int", "string", "int64"})}})
+	decl = append(decl, "PId")
+	if g.r.Chance(3, 5) {
+		e := aType{Kind: "prim", Prim: "string"}
+		a.Types = append(a.Types, aTypeDef{Name: "PSeq", Kind: "alias", Alias: &aType{Kind: "seq", Elem: &e}})
+		decl = append(decl, "PSeq")
+	}
+	if g.r.Chance(3, 5) {
+		a.Types = append(a.Types, aTypeDef{Name: "PEnum", Kind: "enum", Enum: []aEnumItem{{"on", 1}, {"off", 0}, {"Auto", 5}}})
+		decl = append(decl, "PEnum")
+	}
+	if g.r.Chance(2, 5) {
+		a.Types = append(a.Types, aTypeDef{Name: "PTab", Kind: "table", Fields: []aField{{"pid", aType{Kind: "prim", Prim: "int"}}, {"label", aType{Kind: "prim", Prim: "string", Opt: true}}}})
+		decl = append(decl, "PTab")
+	}
+	bare := false
+	for i := range a.Endpoints {
+		ep := &a.Endpoints[i]
+		taken := map[string]bool{}
+		for pi := range ep.Params {
+			p := &ep.Params[pi]
+			taken[p.Name] = true
+			switch p.In {
+			case "path":
+				if g.r.Chance(2, 3) {
+					p.T = aType{Kind: "ref", Ref: g.pick(decl)}
+				}
+			case "query", "header":
+				if g.r.Chance(1, 2) {
+					p.T = aType{Kind: "ref", Ref: g.pick(decl), Opt: p.T.Opt}
+				}
+			}
+		}
+		// at least one query and one header parameter of a declared type per endpoint
+		for _, in := range []string{"query", "header"} {
+			for _, pn := range g.pickDistinct([]string{"status", "Trace", "colour", "pg", "who"}, 1+g.r.Intn(2)) {
+				if taken[pn] {
+					continue
+				}
+				taken[pn] = true
+				p := aParam{Name: pn, In: in, T: aType{Kind: "ref", Ref: g.pick(decl), Opt: g.r.Chance(2, 5)}}
+				if in == "query" && !bare && g.r.Chance(1, 6) {
+					p.T.Bare, bare = true, true
+				}
+				ep.Params = append(ep.Params, p)
+			}
+		}
+	}
+	return a
+}
+
+// stmts stream (deepen round 3, second pass): an application of the main stream whose return statements are nested in if /
+// else, loops, for-each, one-of alternatives and groups (also three levels deep), where several return statements may carry
+// the same status, plus - in a third of the applications - RPC-style endpoints and a description
+func (g *gen) appStmts(name string, style string) aApp {
+	a := g.app(name, style, false)
+	wraps := []string{"if", "else", "foreach", "until", "while", "oneof", "oneof", "group", "deep"}
+	for i := range a.Endpoints {
+		ep := &a.Endpoints[i]
+		if len(ep.Rets) == 0 {
+			ep.Rets = append(ep.Rets, aRet{Name: map[bool]string{true: "200", false: "ok"}[style == "imported"], T: &aType{Kind: "ref", Ref: a.Types[0].Name}})
+		}
+		// the same status a second time, with another payload
+		if g.r.Chance(1, 3) {
+			r := ep.Rets[g.r.Intn(len(ep.Rets))]
+			dup := aRet{Name: r.Name, T: &aType{Kind: "prim", Prim: "string"}}
+			if style == "imported" {
+				dup.T = &aType{Kind: "ref", Ref: a.Types[len(a.Types)-1].Name}
+			}
+			ep.Rets = append(ep.Rets, dup)
+		}
+		ep.Wrap = make([]string, len(ep.Rets))
+		for r := range ep.Rets {
+			if g.r.Chance(3, 5) {
+				ep.Wrap[r] = g.pick(wraps)
+			}
+		}
+	}
+	if g.r.Chance(1, 3) {
+		a.Endpoints = append(a.Endpoints, aEndpoint{Plain: true, Path: "Login", Rets: []aRet{{Name: "ok", T: &aType{Kind: "ref", Ref: a.Types[0].Name}}}})
+		if g.r.Bool() {
+			a.Endpoints = append(a.Endpoints, aEndpoint{Plain: true, Path: "Audit"})
+		}
+	}
+	if g.r.Chance(1, 2) {
+		a.Desc = g.pick([]string{"A shop", "Things, and more: things", "x"})
+	}
+	return a
+}
+
 // ---------------------------------------------------------------- rendering
 
 func typeText(t aType) string {
@@ -404,6 +509,9 @@ func renderApp(b *strings.Builder, a aApp) {
 	if a.Version != "" {
 		fmt.Fprintf(b, "    @version = %q\n", a.Version)
 	}
+	if a.Desc != "" {
+		fmt.Fprintf(b, "    @description = %q\n", a.Desc)
+	}
 	if a.Server != "" {
 		fmt.Fprintf(b, "    @env.1.url = %q\n", a.Server)
 	}
@@ -412,7 +520,11 @@ func renderApp(b *strings.Builder, a aApp) {
 	}
 	for _, ep := range a.Endpoints {
 		if ep.Plain {
-			fmt.Fprintf(b, "    %s:\n        ...\n", ep.Path)
+			fmt.Fprintf(b, "    %s:\n", ep.Path)
+			if len(ep.Rets) == 0 {
+				b.WriteString("        ...\n")
+			}
+			renderRets(b, ep, "        ")
 			continue
 		}
 		path := ep.Path
@@ -423,7 +535,7 @@ func renderApp(b *strings.Builder, a aApp) {
 				path = strings.Replace(path, "{"+p.Name+"}", "{"+p.Name+" <: "+typeText(p.T)+"}", 1)
 			case "query":
 				tt := typeText(p.T)
-				if p.T.Kind != "prim" {
+				if p.T.Kind != "prim" && !p.T.Bare {
 					tt = "{" + strings.TrimSuffix(tt, "?") + "}"
 					if p.T.Opt {
 						tt += "?"
@@ -458,16 +570,7 @@ func renderApp(b *strings.Builder, a aApp) {
 		if len(ep.Rets) == 0 {
 			b.WriteString("            ...\n")
 		}
-		for _, r := range ep.Rets {
-			switch {
-			case r.Name == "" && r.T != nil:
-				fmt.Fprintf(b, "            return %s\n", typeText(*r.T))
-			case r.T == nil:
-				fmt.Fprintf(b, "            return %s\n", r.Name)
-			default:
-				fmt.Fprintf(b, "            return %s <: %s\n", r.Name, typeText(*r.T))
-			}
-		}
+		renderRets(b, ep, "            ")
 	}
 	for _, t := range a.Types {
 		switch t.Kind {
@@ -512,6 +615,55 @@ func renderApp(b *strings.Builder, a aApp) {
 			}
 		case "alias":
 			fmt.Fprintf(b, "    !alias %s:\n        %s\n", t.Name, typeText(*t.Alias))
+		}
+	}
+}
+
+func retText(r aRet) string {
+	switch {
+	case r.Name == "" && r.T != nil:
+		return "return " + typeText(*r.T)
+	case r.T == nil:
+		return "return " + r.Name
+	}
+	return "return " + r.Name + " <: " + typeText(*r.T)
+}
+
+// the return statements of an endpoint, each inside the statement its Wrap entry names
+func renderRets(b *strings.Builder, ep aEndpoint, ind string) {
+	inOneOf := false
+	for i, r := range ep.Rets {
+		w := ""
+		if i < len(ep.Wrap) {
+			w = ep.Wrap[i]
+		}
+		if w != "oneof" {
+			inOneOf = false
+		}
+		rt := retText(r)
+		switch w {
+		case "if":
+			fmt.Fprintf(b, "%sif cond%d:\n%s    %s\n", ind, i, ind, rt)
+		case "else":
+			fmt.Fprintf(b, "%sif cond%d:\n%s    log it\n%selse:\n%s    %s\n", ind, i, ind, ind, ind, rt)
+		case "foreach":
+			fmt.Fprintf(b, "%sfor each x in xs:\n%s    %s\n", ind, ind, rt)
+		case "until":
+			fmt.Fprintf(b, "%suntil done:\n%s    %s\n", ind, ind, rt)
+		case "while":
+			fmt.Fprintf(b, "%swhile busy:\n%s    log it\n%s    %s\n", ind, ind, ind, rt)
+		case "group":
+			fmt.Fprintf(b, "%sgrouped:\n%s    %s\n", ind, ind, rt)
+		case "deep":
+			fmt.Fprintf(b, "%sif cond%d:\n%s    for each x in xs:\n%s        one of:\n%s            case a:\n%s                %s\n", ind, i, ind, ind, ind, ind, rt)
+		case "oneof":
+			if !inOneOf {
+				fmt.Fprintf(b, "%sone of:\n", ind)
+				inOneOf = true
+			}
+			fmt.Fprintf(b, "%s    case c%d:\n%s        %s\n", ind, i, ind, rt)
+		default:
+			fmt.Fprintf(b, "%s%s\n", ind, rt)
 		}
 	}
 }
@@ -577,6 +729,35 @@ func corpus() []aApp {
 		{Name: "CrossApp", Version: "1.0", Style: "sysl", Types: []aTypeDef{
 			{Name: "Item", Kind: "tuple", Fields: []aField{{"id", prim("int", false)}, {"far", ref("Other.Thing", false)}, {"fars", seq(ref("Other.Thing", false), true)}}}},
 			Endpoints: []aEndpoint{{Method: "GET", Path: "/items", Rets: []aRet{{"ok", pt(ref("Item", false))}}}}},
+		// second pass: parameters of declared types in every location, with and without braces
+		{Name: "DeclParams", Version: "1.0", Style: "sysl", Types: []aTypeDef{
+			{Name: "OrderId", Kind: "alias", Alias: pt(prim("int", false))},
+			{Name: "TraceToken", Kind: "alias", Alias: pt(prim("string", false))},
+			{Name: "Status", Kind: "alias", Alias: pt(seq(prim("string", false), false))},
+			{Name: "Colour", Kind: "enum", Enum: []aEnumItem{{"red", 1}, {"blue", 2}}},
+			{Name: "Page", Kind: "tuple", Fields: []aField{{"n", prim("int", false)}}},
+			{Name: "Cust", Kind: "table", Fields: []aField{{"cid", prim("int", false)}}},
+			{Name: "Order", Kind: "tuple", Fields: []aField{{"id", ref("OrderId", false)}}}},
+			Endpoints: []aEndpoint{
+				{Method: "GET", Path: "/orders/{id}", Params: []aParam{{Name: "id", In: "path", T: ref("OrderId", false)},
+					{Name: "trace", In: "header", T: ref("TraceToken", false)}, {Name: "col", In: "header", T: ref("Colour", true)},
+					{Name: "status", In: "query", T: ref("Status", false)}, {Name: "colour", In: "query", T: ref("Colour", true)}, {Name: "pg", In: "query", T: ref("Page", false)}},
+					Rets: []aRet{{"ok", pt(ref("Order", false))}}},
+				{Method: "GET", Path: "/custs/{c}/{e}", Params: []aParam{{Name: "c", In: "path", T: ref("Cust", false)}, {Name: "e", In: "path", T: ref("Colour", false)},
+					{Name: "t", In: "query", T: ref("Cust", true)}}, Rets: []aRet{{"ok", pt(ref("Order", false))}}}}},
+		{Name: "NestedReturns", Version: "1.0", Desc: "Returns inside blocks", Style: "sysl", Types: []aTypeDef{
+			{Name: "Item", Kind: "tuple", Fields: []aField{{"id", prim("int", false)}}},
+			{Name: "Err", Kind: "tuple", Fields: []aField{{"msg", prim("string", false)}}}},
+			Endpoints: []aEndpoint{
+				{Method: "GET", Path: "/x", Rets: []aRet{{"404", pt(ref("Err", false))}, {"ok", pt(ref("Item", false))}, {"500", pt(ref("Err", false))},
+					{"201", pt(ref("Item", false))}, {"202", nil}, {"203", pt(ref("Item", false))}, {"204", nil}, {"205", pt(ref("Item", false))}, {"error", pt(ref("Err", false))}},
+					Wrap: []string{"if", "else", "foreach", "oneof", "oneof", "until", "while", "deep", ""}},
+				{Method: "GET", Path: "/same", Rets: []aRet{{"ok", pt(ref("Item", false))}, {"ok", pt(ref("Err", false))}}, Wrap: []string{"if", "else"}},
+				{Plain: true, Path: "Login", Rets: []aRet{{"ok", pt(ref("Item", false))}}}}},
+		{Name: "BareQuery", Version: "1.0", Style: "sysl", Types: []aTypeDef{
+			{Name: "Status", Kind: "alias", Alias: pt(prim("string", false))}},
+			Endpoints: []aEndpoint{{Method: "GET", Path: "/orders", Params: []aParam{{Name: "status", In: "query", T: aType{Kind: "ref", Ref: "Status", Bare: true}}},
+				Rets: []aRet{{"ok", pt(prim("string", false))}}}}},
 		{Name: "Imported", Version: "1.0", Style: "imported", Types: []aTypeDef{
 			{Name: "Obj", Kind: "tuple", Fields: []aField{{"name", prim("string", true)}, {"id", prim("int", false)}, {"parts", seq(ref("Obj", false), true)}}}},
 			Endpoints: []aEndpoint{{Method: "POST", Path: "/test/{key}", Params: []aParam{
